@@ -22,6 +22,8 @@ def install_perturbation(spec, stats):
                    cmp.Stopper.filter.__code__]
     for c in lines.ProcessLine.start.__code__.co_consts + lines.ThreadLine.start.__code__.co_consts:
         if hasattr(c, "co_name"): codes_line.append(c)          # join_and_call
+    if prof.get("slow_start"):                                  # a slow process launch widens the window in which a retired worker
+        codes_line += [lines.ProcessLine.start.__code__, cmp.MyProcessLine.start.__code__]   # has gone and its replacement is not there yet
     p_line, p_instr, dmax = prof.get("p_line", .25), prof.get("p_instr", .1), prof.get("max_ms", 3) / 1000.0
     def on_line(code, line):
         stats["line_events"] += 1
@@ -116,10 +118,11 @@ def main():
     try:
         rngc = random.Random(spec["perturb_seed"] + 17)
         filt = comp.C08Filter(spec["mode"], {int(k): v for k, v in spec["kmap"].items()}, spec["raising"], spec["side"],
-                              spec["perturb_seed"], spec["worker_jitter_ms"])
+                              spec["perturb_seed"], spec["worker_jitter_ms"], spec.get("exc_type", "ValueError"))
         def source():
             for uid in range(spec["n_items"]):
                 if spec["loader_jitter_ms"] and rngc.random() < .5: time.sleep(rngc.random() * spec["loader_jitter_ms"] / 1000.0)
+                if spec.get("tail_delay_ms") and uid >= spec["n_items"] - 2: time.sleep(rngc.random() * spec["tail_delay_ms"] / 1000.0)   # late last items
                 res["events"].append(("loaded", uid))
                 yield (uid, "p" * (uid % 7))
         if spec["via"] == "coba":
